@@ -62,16 +62,6 @@ def classify_8(stdout: str, stderr: str, returncode: int) -> bool:
     return _same(out.result, _spec(stdout)) and out.returncode == returncode and out.path_id == 7
 
 
-def classify_12(stdout: str, stderr: str, returncode: int) -> bool:
-    """
-    pre: len(stdout) <= 12
-    pre: len(stderr) <= 4
-    post: __return__
-    """
-    out = _run(stdout, stderr, returncode, False)
-    return _same(out.result, _spec(stdout))
-
-
 # ---- the fail-safe direction on its own: unsat only for an exact first line "unsat" -----------------------------
 def unsat_only_exact_8(stdout: str, stderr: str, returncode: int) -> bool:
     """
@@ -175,16 +165,6 @@ def non_unsat_cache_8(stdout: str, stderr: str, returncode: int) -> bool:
         return True
     out = _run(stdout, stderr, returncode, True)
     return not (out.result == unsat)
-
-
-def unsat_cache_tail_2(tail: str, returncode: int) -> bool:
-    """
-    pre: len(tail) <= 2
-    post: __return__
-    """
-    # --cache-solver on, first line "unsat": the unsat-core parser runs on the tail and must not change the class
-    out = _run("unsat\n" + tail, "", returncode, True)
-    return out.result == unsat and out.model is None
 
 
 # ---- from_error never produces anything but "err" ---------------------------------------------------------------
